@@ -61,8 +61,42 @@ def iter_source(ex, v, st):
     raise Unsupported('iteration over %r' % (v,))
 
 
+SPEC_BUILTINS = {'old', 'len', 'implies', 'isnone', 'forall', 'exists', 'all_int', 'all_bytes', 'all_str', 'empty',
+                 'unchanged', 'raised', 'int', 'bool', 'mv', 'bytes', 'memoryview', 'contains', 'keys', 'mapof', 'store',
+                 'evid', 'result', 'True', 'False', 'None'}
+
+
+def inv_applicable(ex, spec, st, fr, n):
+    """every free name of the invariant text is bound here (a refactoring that renames or removes a
+    local makes the sidecar invariant inapplicable: the loop is then unrolled, labelled bounded)"""
+    import ast as _ast
+    bound = set(st.env) | set(st.ghost) | set(getattr(ex.reg, 'spec_consts', {})) | set(ex.reg.specfuns) | SPEC_BUILTINS
+    bound |= {spec.index or '_i'} | {'pre_' + x for x in spec.snapshot}
+    # names first bound inside the loop body (targets) are legitimately absent at the head only if
+    # the invariant does not mention them
+    for text in spec.inv:
+        tx = text[1] if isinstance(text, tuple) else text
+        tree = ex.spec.parse(tx)
+        qvars = set()
+        for node in _ast.walk(tree):
+            if isinstance(node, _ast.Call) and isinstance(node.func, _ast.Name) and \
+                    node.func.id in ('forall', 'exists', 'all_int', 'all_bytes', 'all_str') and node.args and \
+                    isinstance(node.args[0], _ast.Constant):
+                qvars.add(node.args[0].value)
+        for node in _ast.walk(tree):
+            if isinstance(node, _ast.Name) and node.id not in bound and node.id not in qvars:
+                return node.id
+    return None
+
+
 def run_loop(ex, n, st, fr):
     spec = loop_spec(ex, n, fr)
+    if spec is not None and not spec.unroll:
+        missing = inv_applicable(ex, spec, st, fr, n)
+        if missing is not None:
+            ex.bounded.append('%s:%d invariant names `%s` which is not bound here: loop unrolled %d times instead '
+                              '(bounded, not proved)' % (fr.relpath, n.lineno, missing, ex.default_unroll(n, fr)))
+            spec = None
     if isinstance(n, ast.While):
         if spec is None or spec.unroll:
             return unroll_while(ex, n, st, fr, spec.unroll if spec else ex.default_unroll(n, fr))
